@@ -306,7 +306,7 @@ def gen_e2e(rng, search, cores=1, thorough=False, force_reject=False):
         # evaluations in the lower half of one parameter are slower: parallel jobs finish out of order
         path, (kind, k) = [lf for lf in leaves(spec["root"]) if lf[1][0] == "p"][0]
         p = spec["priors"][k]
-        case["slow"] = [path.split("."), (unhex(p["lo"]) + unhex(p["hi"])) / 2.0, 0.01]
+        case["slow"] = [path.split("."), (unhex(p["lo"]) + unhex(p["hi"])) / 2.0, 0.04]
     if search in ("drawer", "bfgs", "lbfgs") and cores == 1:
         case["refit"] = True
     if search == "drawer" and (force_reject or rng.random() < 0.5):
@@ -456,15 +456,19 @@ def oracle(c, r):
     return fails
 
 
+VARIANTS = {}
+
+
 def classes_of(c, aspect):
     """Labels computed from the case and the violated clause of the property."""
     s = c["search"]
     out = ["%s:%s" % (s, aspect), "search=" + s]
     if s.startswith("pyswarms") and aspect in ("ll", "lp"):
         out.append("pyswarms-pairing")
-    if s == "emcee" and aspect == "ll" and c.get("cores", 1) == 1:
+    # the MCMC labels apply only while the source has the pinned (unaligned) log-prob call
+    if s == "emcee" and aspect == "ll" and VARIANTS.get("Emcee") == "unaligned":
         out.append("emcee-logprob-slice")
-    if s == "zeus" and aspect == "ll":
+    if s == "zeus" and aspect == "ll" and VARIANTS.get("Zeus") == "unaligned":
         out.append("zeus-logprob-unthinned")
     if c.get("cores", 1) >= 2 and s in ("emcee", "dynesty_static", "dynesty_dynamic") and aspect == "ll":
         out.append("multicore-sneakypool-order")
@@ -625,6 +629,8 @@ def run(ctx):
     if ok:
         ctx.obligation("translator:mcmc-logprob-variant", "translator", True, json.dumps(variants))
     ctx.notes["mcmc_logprob_variant"] = variants
+    VARIANTS.clear()
+    VARIANTS.update(variants)
     # 2. proofs
     import time
     t0 = time.time()
